@@ -109,6 +109,36 @@ def fn_parts(src, name, ret=r"[^{]+?"):
     return param_names(m.group(1)), src[m.end():i - 1]
 
 
+def impl_fns(src, impl):
+    """[(name, parameter text, return type text, body)] of the functions inside `impl <impl> { … }`"""
+    m = re.search(r"impl(?:<[^>]*>)?\s+%s(?:<[^>]*>)?\s*\{" % re.escape(impl), src)
+    if not m:
+        raise ExtractError("impl %s not found" % impl)
+    depth, i = 1, m.end()
+    while depth and i < len(src):
+        depth += {"{": 1, "}": -1}.get(src[i], 0)
+        i += 1
+    region = src[m.end():i - 1]
+    out = []
+    for fm in re.finditer(r"fn\s+(\w+)\s*(?:<[^>]*>)?\s*\(([^)]*)\)\s*(?:->\s*([^{]+?))?\s*\{", region):
+        depth, j = 1, fm.end()
+        while depth and j < len(region):
+            depth += {"{": 1, "}": -1}.get(region[j], 0)
+            j += 1
+        out.append((fm.group(1), fm.group(2), (fm.group(3) or "").strip(), region[fm.end():j - 1]))
+    return out
+
+
+def find_role(src, impl, what, pred):
+    """the one function of `impl` that plays a role (found by its signature / what it returns, whatever it
+    is called)"""
+    hits = [f for f in impl_fns(src, impl) if pred(f)]
+    if len(hits) != 1:
+        raise ExtractError("%s: expected one function of impl %s in the role `%s`, found %s" % (
+            impl, impl, what, [h[0] for h in hits]))
+    return hits[0][0]
+
+
 def tmatch(text, template, params=(), tparams=()):
     """match a fragment of Rust against a template, both in canonical form (naming and layout do not
     matter).  Holes in the template: HOLEWn = one word, HOLEXn = anything (shortest), HOLEGn = anything
@@ -428,7 +458,7 @@ def gen_structure():
     if not m:
         raise ExtractError("Context::new not found")
     new_body = m.group(2)
-    new_rest_default = bool(re.search(r"\.\.\s*Default::default\(\)", new_body))
+    new_rest_default = bool(re.search(r"\.\.\s*(?:Default|Self|Context)::default\(\)", new_body))
     new_fields = [f for f in re.findall(r"([a-z_][a-z0-9_]*)\s*(?:,|$|:)", re.sub(r"\.\..*", "", new_body, flags=re.S)) if f in fields]
 
     def initialiser(fn_name):
@@ -730,7 +760,7 @@ def provider_exports():
         for m in re.finditer(r"decorate_for_target!\s*\{\s*(?:///[^\n]*\n\s*)*fn\s+(\w+)\s*\((.*?)\)\s*->\s*([^{]+)\{", src, flags=re.S):
             ps, rs = rust_sig(m.group(2), m.group(3))
             out.append(("_" + m.group(1), ps, rs))
-        for m in re.finditer(r'#\[export_name\s*=\s*"([^"]+)"\]\s*(?:pub\s+)?(?:unsafe\s+)?extern\s+"C"\s+fn\s+\w+\s*\((.*?)\)\s*(?:->\s*([^{]+))?\{', src, flags=re.S):
+        for m in re.finditer(r'#\[export_name\s*=\s*"([^"]+)"\]\s*(?:#\[[^\]]*\]\s*)*(?:pub(?:\([a-z]+\))?\s+)?(?:unsafe\s+)?extern\s+"C"\s+fn\s+\w+\s*\((.*?)\)\s*(?:->\s*([^{]+))?\{', src, flags=re.S):
             if m.group(1).startswith("concat!"):
                 continue
             ps, rs = rust_sig(m.group(2), m.group(3))
@@ -792,7 +822,10 @@ def readme_tables():
         j = md.find("\n#", i + 1)
         return md[i: j if j > 0 else len(md)]
     def rows(sec):
-        return [(n, int(v)) for v, n in re.findall(r"-\s*\*\*(\d+)\*\*:\s*`(\w+)`", sec)]
+        # a bullet list (`- **0**: `Null` …`, any bullet character) or a table (`| **0** | `Null` | … |`)
+        found = re.findall(r"^[ \t]*[-*+]\s*\*\*(\d+)\*\*\s*:?\s*`(\w+)`", sec, flags=re.M)
+        found += re.findall(r"^[ \t]*\|\s*\*{0,2}(\d+)\*{0,2}\s*\|\s*`(\w+)`\s*\|", sec, flags=re.M)
+        return [(n, int(v)) for v, n in found]
     return rows(section("### Value Types")), rows(section("### Read Error Codes")), rows(section("### Write Status Codes"))
 
 
@@ -901,7 +934,9 @@ def gen_markers():
             ok = ("%s::from_be_bytes([%s" % (ty, idx)) in body.replace(",]", "]") or ("%s::from_be_bytes([%s])" % (ty, idx)) in body.replace(",]", "]")
         if not ok:
             raise ExtractError("Cursor::read_%s does not decode %d big-endian bytes" % (ty, n))
-    m = re.search(r"fn\s+read_marker\s*\(&mut self\)[^{]*\{(.*?)\n    \}", src, flags=re.S)
+    n_rm = find_role(src, "Cursor", "read_marker (&mut self) -> Result<Marker, ErrorCode>",
+                     lambda f: "self" in f[1] and re.sub(r"\s+", "", f[2]) == "Result<Marker,ErrorCode>")
+    m = re.search(r"fn\s+%s\s*\(&mut self\)[^{]*\{(.*?)\n    \}" % n_rm, src, flags=re.S)
     rm_tpl = ("if self.position >= self.length { return Err(ErrorCode::ReadError); } "
               "let marker = Marker::from_u8(self.bytes[self.position]); self.position += 1; Ok(marker)")
     if not m or not (same_shape(m.group(1), rm_tpl) or (
@@ -909,7 +944,7 @@ def gen_markers():
             and "Marker::from_u8(self.bytes[self.position])" in re.sub(r"\s+", "", m.group(1)))):
         raise ExtractError("Cursor::read_marker changed shape")
     # the dispatch
-    m = re.search(r"let\s+(\w+)\s*=\s*cursor\.read_marker\(\)\?;\s*match\s+\1\s*\{", src)
+    m = re.search(r"let\s+(\w+)\s*=\s*(\w+)\.%s\(\)\?;\s*match\s+\1\s*\{" % n_rm, src)
     if not m:
         raise ExtractError("LazyValueRef::new: `match marker` not found")
     depth, i = 1, m.end()
@@ -1250,7 +1285,18 @@ def gen_fns_nanbox(const_names):
     try:
         core = normalise_src(strip_comments(strip_tests(read("core/src/read.rs"))))
         out = [FNS_HEADER[0], "import SfVerif.Model.NanBox", "namespace SfVerif.Gen"]
-        params, body = rs2lean.find_fn(core, "encode", "NanBox")
+        def types(ptext):
+            return [re.sub(r"\s+", "", x.split(":", 1)[1]) for x in ptext.split(",") if ":" in x and "self" not in x.split(":")[0]]
+        n_encode = find_role(core, "NanBox", "encode (usize, usize, Tag) -> Self",
+                             lambda f: types(f[1]) == ["usize", "usize", "Tag"])
+        n_tag = find_role(core, "NanBox", "tag (&self) -> Result<Tag, _>",
+                          lambda f: types(f[1]) == [] and "self" in f[1] and re.match(r"Result<Tag\b", re.sub(r"\s+", "", f[2])))
+        n_as_val = find_role(core, "Tag", "as_val (&self) -> Val", lambda f: "self" in f[1] and re.sub(r"\s+", "", f[2]) == "Val")
+        n_from_val = find_role(core, "Tag", "from_val (Val) -> Result<Self, _>",
+                               lambda f: types(f[1]) == ["Val"] and re.match(r"Result<Self\b", re.sub(r"\s+", "", f[2])))
+        rs2lean.AS_VAL = n_as_val
+        rs2lean.FROM_VAL = "Tag::" + n_from_val
+        params, body = rs2lean.find_fn(core, n_encode, "NanBox")
         pn = param_names(params)
         if len(pn) != 3 or not re.fullmatch(r"\s*\w+\s*:\s*usize\s*,\s*\w+\s*:\s*usize\s*,\s*\w+\s*:\s*Tag\s*,?\s*", params):
             raise ExtractError("NanBox::encode parameters are no longer (usize, usize, Tag): %s" % params)
@@ -1267,7 +1313,7 @@ def gen_fns_nanbox(const_names):
         out.append(rs2lean.translate(body, {pn[0]: "bits"}, const_names))
         out += ["", "end SfVerif.Gen"]
         # ---- the decode side: NanBox::try_decode with NanBox::tag inlined
-        fvp, fv = rs2lean.find_fn(core, "from_val", "Tag")
+        fvp, fv = rs2lean.find_fn(core, n_from_val, "Tag")
         fv_norm = re.sub(r'"[^"]*"', "S", fv)
         fv_params = param_names(fvp)
         if not any(same_shape(fv_norm, tpl, fv_params, ["v"]) for tpl in (
@@ -1286,8 +1332,8 @@ def gen_fns_nanbox(const_names):
             raise ExtractError("NanBox::try_decode: the pointer-width dependent `let` pair changed shape")
         td_raw = td_raw[:m.start()] + "let %s = if w == 32 { %s } else { %s };" % (m.group(1), m.group(2), m.group(4)) + td_raw[m.end():]
         td_raw = re.sub(r'"[^"]*"', "STRLIT", td_raw)
-        _, tagb = rs2lean.find_fn(core, "tag", "NanBox")
-        opts = {"decode": True, "fns": {"tag": rs2lean.parse_body(tagb)}}
+        _, tagb = rs2lean.find_fn(core, n_tag, "NanBox")
+        opts = {"decode": True, "fns": {n_tag: rs2lean.parse_body(tagb)}}
         body_lean = rs2lean.translate(td_raw, {"self.0": "v", "w": "w", "STRLIT": "()"}, const_names, (), opts)
         out = out[:-2]
         out += ["",
@@ -1361,9 +1407,18 @@ def gen_fns_state():
         rs2lean.SWAP_FN = swap_fn
         out = ["-- REGENERATED by /verif/extract/extract.py (rs2lean) from function bodies in /repo; do not edit",
                "import SfVerif.Model.Writer", "namespace SfVerif.Gen", "open SfVerif"]
-        for impl, fn, lean in [("ObjectState", "write_string", "obj_write_string"),
-                               ("ObjectState", "write_non_string_value", "obj_write_non_string_value"),
-                               ("ArrayState", "write_value", "arr_write_value")]:
+        def counter(f):
+            return "self" in f[1] and re.sub(r"\s+", "", f[2]) == "WriteResult"
+        n_obj_ns = find_role(state, "ObjectState", "a non-string value arrives (may answer ExpectedKey)",
+                             lambda f: counter(f) and "ExpectedKey" in f[3])
+        n_obj_s = find_role(state, "ObjectState", "a string arrives (key or value)",
+                            lambda f: counter(f) and "ExpectedKey" not in f[3])
+        n_arr = find_role(state, "ArrayState", "a value arrives", counter)
+        rs2lean.COUNTER_FNS = {("obj", n_obj_s): "obj_write_string", ("obj", n_obj_ns): "obj_write_non_string_value",
+                               ("arr", n_arr): "arr_write_value"}
+        for impl, fn, lean in [("ObjectState", n_obj_s, "obj_write_string"),
+                               ("ObjectState", n_obj_ns, "obj_write_non_string_value"),
+                               ("ArrayState", n_arr, "arr_write_value")]:
             params, body = rs2lean.find_fn(state, fn, impl)
             out.append("/-- `%s::%s`: (status, num_inserted') -/" % (impl, fn))
             out.append("def %s (length num_inserted : Nat) : Nat × Nat :=" % lean)
